@@ -157,7 +157,10 @@ class JSONPointer:
                     raise JSONPointerIndexError("index out of range") from None
                 # Handle non-standard index pointer.
                 if isinstance(key, str) and key.startswith("#"):
-                    _index = int(key[1:])
+                    try:
+                        _index = int(key[1:])
+                    except ValueError:
+                        raise JSONPointerTypeError(f"{key}: {err}") from err
                     if _index >= len(obj):
                         raise JSONPointerIndexError(
                             f"index out of range: {_index}"
